@@ -1,17 +1,134 @@
 (* C11 -- re-imaging moves atoms only by lattice vectors and makes molecules whole.
-   Only statements, closed by [exact], and Print Assumptions.  Model: MD.Whole.Model. *)
+   Only statements, closed by [exact], and Print Assumptions.
+   Model: MD.Whole.Model -- hand-written from image_molecules.pxi (make_whole, anchor clustering, wrap_mols),
+   geometry.cpp:find_closest_contact and the bond ordering / inplace plumbing of trajectory.py, in exact arithmetic
+   on the dyadic inputs; tied to the compiled binary by the correspondence run (harness/props/C11.py). *)
 From Coq Require Import ZArith List Bool.
 Import ListNotations.
-Require Import MD.Neigh.Model MD.Whole.Model MD.Whole.Proofs.
+Require Import MD.Neigh.Model MD.Neigh.NeighborsProofs MD.Whole.Model MD.Whole.Proofs.
 Open Scope Z_scope.
 
-(* make_whole: whatever the bond list, every atom ends at its original position minus an integer
-   combination of the frame's cell vectors (the combination the model carries along) *)
-Theorem whole_lattice_moves : forall B bonds xyz i,
-  let st := make_whole B bonds (init_state xyz) in
-  length st = length xyz /\ st_pos st i = vsub (pos xyz i) (latv B (st_shift st i)).
-Proof.
-  intros B bonds xyz i st. destruct (tracks_make_whole B xyz bonds _ (tracks_init B xyz)) as (H1 & H2).
-  split; [exact H1|exact (H2 i)].
-Qed.
+(* make_whole, whatever the bond list: every atom ends at its original position minus an integer combination
+   of the frame's cell vectors (the combination the model carries along) *)
+Theorem whole_lattice_moves : forall B bonds xyz, tracks B xyz (make_whole B bonds (init_state xyz)).
+Proof. intros B bonds xyz. exact (tracks_make_whole B xyz bonds _ (tracks_init B xyz)). Qed.
 Print Assumptions whole_lattice_moves.
+
+(* image_molecules (one frame, with or without the make_whole stage, any anchors/others): the same -- the
+   positions of the model lack only the ONE common translation T = diag/2 - centre(anchors) of the frame,
+   which it returns separately *)
+Theorem image_common_translation : forall B xyz walk anchors others,
+  tracks B xyz (fst (fst (image_molecules_frame B walk anchors others xyz))).
+Proof. exact image_frame_tracks. Qed.
+Print Assumptions image_common_translation.
+
+(* without the make_whole stage every molecule (anchor or not) is moved as a rigid unit: all its atoms carry the
+   same lattice combination (molecules pairwise disjoint, indices valid) *)
+Theorem image_units_rigid : forall B anchors others xyz,
+  NoDup (concat (anchors ++ others)) -> (forall x, In x (concat (anchors ++ others)) -> (x < length xyz)%nat) ->
+  forall m, In m (anchors ++ others) -> forall a b, In a m -> In b m ->
+    st_shift (fst (fst (image_molecules_frame B None anchors others xyz))) a =
+    st_shift (fst (fst (image_molecules_frame B None anchors others xyz))) b.
+Proof. exact image_rigid_no_whole. Qed.
+Print Assumptions image_units_rigid.
+
+(* with it, the additional moves after make_whole are still rigid per molecule *)
+Theorem image_units_rigid_after_whole : forall B anchors others st,
+  NoDup (concat (anchors ++ others)) -> (forall x, In x (concat (anchors ++ others)) -> (x < length st)%nat) ->
+  rigid (anchors ++ others) st (fst (fst (image_frame B anchors others st))).
+Proof. exact image_frame_rigid. Qed.
+Print Assumptions image_units_rigid_after_whole.
+
+(* If the bond walk is parent-ordered (an atom that has occurred in a bond is never moved again) and every
+   walked bond has a lattice image shorter than cn/cd <= half of every diagonal cell entry ("the molecule is
+   shorter than half the cell"), every walked pair ends shorter than cn/cd and at its minimum over ALL images *)
+Theorem whole_tree_ordered : forall B cn cd xyz l,
+  box_ok B -> 0 < cd -> 0 <= cn -> half_width_ok B cn cd ->
+  parent_ordered [] l ->
+  (forall bond, In bond l -> (snd bond < length xyz)%nat /\ has_short_image B cn cd xyz bond) ->
+  forall bond, In bond l ->
+    let st := make_whole B l (init_state xyz) in
+    let d := vsub (st_pos st (snd bond)) (st_pos st (fst bond)) in
+    norm2 d * (cd * cd) < cn * cn /\ forall k1 k2 k3, norm2 d <= norm2 (vsub d (lat B k1 k2 k3)).
+Proof. exact whole_parent_ordered. Qed.
+Print Assumptions whole_tree_ordered.
+
+(* The same for every bond list is FALSE of the code as found (bonds sorted on the first atom, second atom
+   moved): atoms 0 and 1 both bonded to atom 2, atom 1 one cell away -- bond (0,2) ends 4146 units long.
+   Known defect (KNOWN_FINDINGS C11-make-whole-bond-order). *)
+Theorem whole_any_order_refuted :
+  exists B cn cd xyz added,
+    box_ok B /\ 0 < cd /\ 0 <= cn /\ half_width_ok B cn cd /\
+    (forall bond, In bond added -> (snd bond < length xyz)%nat /\ has_short_image B cn cd xyz bond) /\
+    exists bond, In bond added /\ ~ short_now cn cd (make_whole_cur B added xyz) bond.
+Proof. exact whole_any_order_counterexample. Qed.
+Print Assumptions whole_any_order_refuted.
+
+(* Minimal repair = walk the bond graph parent-first (Model.tree_order).  PARTIAL: proved in certificate form --
+   for every walk that passes the executable check [walk_ok] (parent-ordered, made of bonds, joins both ends of
+   every bond under one root) and every system that can be made whole at all (sigma), EVERY bonded pair (ring
+   closures included) ends exactly at its displacement in the whole configuration: shorter than cn/cd and at its
+   minimum image.  Missing: the proof that [tree_order n bonds] passes [walk_ok] for every bond list
+   (coverage/termination of the traversal); the correspondence run evaluates [walk_ok] on every generated system. *)
+Theorem whole_fixed_order_partial : forall B cn cd xyz sg bonds out,
+  box_ok B -> 0 < cd -> 0 <= cn -> half_width_ok B cn cd ->
+  walk_ok (length xyz) bonds out = true ->
+  makes_whole B cn cd xyz sg bonds ->
+  forall bond, In bond bonds ->
+    let st := make_whole B out (init_state xyz) in
+    let d := vsub (st_pos st (snd bond)) (st_pos st (fst bond)) in
+    d = sigma_disp B xyz sg bond /\ norm2 d * (cd * cd) < cn * cn /\
+    forall k1 k2 k3, norm2 d <= norm2 (vsub d (lat B k1 k2 k3)).
+Proof. exact whole_certified_walk. Qed.
+Print Assumptions whole_fixed_order_partial.
+
+(* the repaired walk on the refutation witness *)
+Theorem whole_fixed_on_witness : forall bond, In bond w_bonds -> short_now 300 1 (make_whole_fix w_box w_bonds w_xyz) bond.
+Proof. exact whole_fix_on_counterexample. Qed.
+Print Assumptions whole_fixed_on_witness.
+
+(* Consequently (corollary of the lattice moves): the set of lattice images of every interatomic displacement is
+   unchanged, hence every minimum-image distance, and every angle/dihedral built from minimum-image displacements *)
+Theorem mic_observables_unchanged : forall B bonds xyz a b v,
+  let st := make_whole B bonds (init_state xyz) in
+  ((exists k1 k2 k3, vsub (vsub (st_pos st b) (st_pos st a)) (lat B k1 k2 k3) = v) <->
+   (exists k1 k2 k3, vsub (vsub (pos xyz b) (pos xyz a)) (lat B k1 k2 k3) = v)).
+Proof. exact images_unchanged_whole. Qed.
+Print Assumptions mic_observables_unchanged.
+
+Theorem mic_observables_unchanged_image : forall B walk anchors others xyz a b v,
+  let st := fst (fst (image_molecules_frame B walk anchors others xyz)) in
+  ((exists k1 k2 k3, vsub (vsub (st_pos st b) (st_pos st a)) (lat B k1 k2 k3) = v) <->
+   (exists k1 k2 k3, vsub (vsub (pos xyz b) (pos xyz a)) (lat B k1 k2 k3) = v)).
+Proof. exact images_unchanged_image. Qed.
+Print Assumptions mic_observables_unchanged_image.
+
+(* the Python plumbing as modelled (result = self[:] unless inplace): with inplace=False the receiver is returned
+   unchanged; cells and times of the result are those of the receiver.  (Modelled, not verified: that self[:]
+   copies every array -- the correspondence run checks the receiver bit for bit.) *)
+Theorem not_inplace_pure : forall f t,
+  snd (apply_frames f false t) = t /\
+  t_cells (fst (apply_frames f false t)) = t_cells t /\ t_time (fst (apply_frames f false t)) = t_time t.
+Proof. exact apply_frames_copy. Qed.
+Print Assumptions not_inplace_pure.
+
+Theorem cells_times_untouched : forall f t,
+  snd (apply_frames f true t) = fst (apply_frames f true t) /\
+  t_cells (fst (apply_frames f true t)) = t_cells t /\ t_time (fst (apply_frames f true t)) = t_time t /\
+  fst (apply_frames f true t) = fst (apply_frames f false t).
+Proof. exact apply_frames_inplace. Qed.
+Print Assumptions cells_times_untouched.
+
+(* non-vacuity of the hypothesis sets *)
+Example parent_ordered_hypotheses_satisfiable :
+  box_ok w_box /\ half_width_ok w_box 300 1 /\ parent_ordered [] ex_walk /\
+  (forall bond, In bond ex_walk -> (snd bond < length ex_xyz)%nat /\ has_short_image w_box 300 1 ex_xyz bond) /\
+  st_shift (make_whole w_box ex_walk (init_state ex_xyz)) 1 = (-1, 0, 2).
+Proof. exact ex_parent_ordered_hyps. Qed.
+Print Assumptions parent_ordered_hypotheses_satisfiable.
+
+Example certificate_hypotheses_satisfiable :
+  walk_ok (length w_xyz) (map norm_bond w_bonds) (tree_order (length w_xyz) (map norm_bond w_bonds)) = true /\
+  makes_whole w_box 300 1 w_xyz (fun x => match x with 1%nat => (1, 0, 0) | _ => (0, 0, 0) end) (map norm_bond w_bonds).
+Proof. exact ex_certificate. Qed.
+Print Assumptions certificate_hypotheses_satisfiable.
